@@ -15,7 +15,7 @@ def check(ctx):
         C.violation(ctx, "harness-build-failed", {"log": log[-3000:]}, no_input=True)
         return C.finish(ctx, trusted=C.TRUSTED_COMMON)
     q = ctx.tier == "quick"
-    mal = GL.gen_malformed(ctx.seed, 20000 if q else 300000)
+    mal = C.uniq(GL.gen_malformed(ctx.seed, 20000 if q else 300000), key=lambda d: d["text"])
     texts = [d["text"] for d in mal]
     lines = [G.enc(t) for t in texts]
     ucpath, _ = G.uclass_table(ctx, texts, C)
